@@ -12,7 +12,9 @@ use std::net::{Ipv4Addr, SocketAddrV4};
 pub struct NetSpec {
     pub servers: usize,
     pub clients: usize,
-    /// "private" (every id counts as secure) | "public" (BEP42 live; servers start with a secure id via public_ip)
+    /// "private" (every id counts as secure) | "public" (BEP42 live; most nodes start with a secure id via public_ip, every
+    /// 5th with a random one) | "public_rekey" (BEP42 live; nobody knows its address: every node starts with a random id and
+    /// re-keys once its address is confirmed)
     pub plan: String,
     /// "sequential" | "simultaneous"
     pub join: String,
@@ -30,7 +32,7 @@ pub struct Net {
 }
 
 pub fn node_ip(plan: &str, i: usize) -> Ipv4Addr {
-    if plan == "public" {
+    if plan.starts_with("public") {
         public_ip(i)
     } else {
         private_ip(i)
